@@ -8,6 +8,7 @@
   program (any number of keywords and records per section).
 -/
 import OpmVerif.Proofs.FieldProps
+import OpmVerif.Proofs.FieldPropsIndep
 
 namespace OpmVerif.Props.C12
 open OpmVerif.FieldProps
@@ -82,15 +83,9 @@ theorem observable_result_refines {α : Type} [RealOps α] (D : Dims) (hD : DPos
     runObserve .ref D T A P = runObserve .impl D T A P :=
   runObserve_refines D hD T A hA P
 
-/-- `inactive_independence`, proved per operation (hence `_partial`): the same operation on the
-same global contents under two ACTNUMs leaves the same content in every cell active in both.
-Full shape (not proved): for whole programs `P`, if `runProg .impl` succeeds under `A` and `A'`
-then every array agrees on the cells active in both final ACTNUMs.  Missing: the relational
-induction over the front end; region emptiness (a record is skipped when its region has no
-ACTIVE cell) and OPERATER's late creation of its source array make the set of existing arrays
-depend on the ACTNUM, which the invariant has to absorb.  The whole-program statement is what
-the property mode of the harness evaluates on the real code. -/
-theorem inactive_independence_partial {α : Type} [Scalar α] (K : Kernel α) (A A' : List Bool)
+/-- `inactive_independence` for one operation (any kernel, any selection): the same operation on
+the same global contents under two ACTNUMs leaves the same content in every cell active in both. -/
+theorem inactive_independence_per_operation {α : Type} [Scalar α] (K : Kernel α) (A A' : List Bool)
     (sel : Nat → Option Nat) (L L' : List Idx) (hs : IdxSpec A sel L) (hs' : IdxSpec A' sel L')
     (src tgt : Arr α) (hsrc : src.length = A.length) (htgt : tgt.length = A.length)
     (hAA : A'.length = A.length) (y y' : Arr α)
@@ -99,6 +94,36 @@ theorem inactive_independence_partial {α : Type} [Scalar α] (K : Kernel α) (A
     (g : Nat) (hg : isActive A g = true) (hg' : isActive A' g = true) :
     y[rank A g]? = y'[rank A' g]? :=
   indep_one_op K A A' sel L L' hs hs' src tgt hsrc htgt hAA y y' hy hy' g hg hg'
+
+/-- `inactive_independence` for whole programs of any length, implementation semantics: if the
+same program is accepted under two ACTNUMs `A` and `A'` (any two, not only `A ⊆ A'`), then at
+every global cell `g` that is active at the end of both runs every array holds the same value
+and status (cell `g` is found at active index `rank t.act g` resp. `rank t'.act g`).
+
+`_partial` because of the two hypotheses:
+* `NoTop T` — no keyword with the "distribute top layer" flag.  This one is NECESSARY: with such
+  a keyword the statement is false of the code (`toplayer_breaks_independence` below and
+  design.d/C12.md, finding 2).
+* `P.NoOperR` — no OPERATER keyword.  Not believed necessary; OPERATER creates its source array
+  only when the region has an active cell, so the SET of existing arrays depends on the ACTNUM
+  and the one-cell projection used in the proof does not cover it.
+Full shape: the same statement without `P.NoOperR`. -/
+theorem inactive_independence_partial {α : Type} [RealOps α] (D : Dims) (hD : DPos D) (T : Tables α)
+    (hT : NoTop T) (P : Prog α) (hP : P.NoOperR) (A A' : List Bool) (hA : A.length = D.size)
+    (hA' : A'.length = D.size) (t t' : St α)
+    (h : runProg .impl D T (initSt A) P = some t) (h' : runProg .impl D T (initSt A') P = some t')
+    (g : Nat) (hg : g < D.size) (hact : isActive t.act g = true) (hact' : isActive t'.act g = true) :
+    smap (fun x => cellAt x (rank t.act g)) t.dbls = smap (fun x => cellAt x (rank t'.act g)) t'.dbls ∧
+    smap (fun x => cellAt x (rank t.act g)) t.ints = smap (fun x => cellAt x (rank t'.act g)) t'.ints :=
+  runProg_indep_impl D hD T hT P hP A A' hA hA' t t' h h' g hg hact hact'
+
+/-- The reason behind it: in an accepted reference run the content of an active cell evolves by
+a one-cell semantics (`runProg1`) that sees neither the ACTNUM nor any other cell. -/
+theorem active_cell_evolves_alone {α : Type} [RealOps α] (g : Nat) (D : Dims) (hD : DPos D) (T : Tables α)
+    (hT : NoTop T) (hg : g < D.size) (s0 : St α) (hw : WF D s0) (P : Prog α) (hP : P.NoOperR) (s : St α)
+    (h : runProg .ref D T s0 P = some s) (hact : isActive s.act g = true) :
+    runProg1 g D T (proj g s0) P = some (proj g s) :=
+  runProg_proj g D hD T hT hg s0 hw P hP s h hact
 
 /-! ### The semantics the code has (pinned as the reference) -/
 
@@ -178,5 +203,35 @@ def sampleP : Prog Int :=
 example : (runObserve .impl sampleD sampleT sampleA sampleP).isSome = true := by decide +kernel
 example : runObserve .ref sampleD sampleT sampleA sampleP = runObserve .impl sampleD sampleT sampleA sampleP := by
   decide +kernel
+
+/-! ### Finding 2 in the model: "distribute top layer" makes an active cell depend on whether
+ANOTHER cell (the top of its column) is inactive.  1×1×2 grid, a `top` keyword KY: layer 1 gets
+100 in a one-cell box, layer 2 then gets a defaulted entry (default 0).  With both cells active
+the lower cell keeps the copied-down 100; with the top cell inactive it ends up 0. -/
+
+def topD : Dims := ⟨1, 1, 2⟩
+def topT : Tables Int := ⟨[("KY", ⟨none, false, true, false, 1, 0, false⟩)], [("ACTNUM", some 1)]⟩
+def topP : Prog Int :=
+  { grid := [.box ⟨some 1, some 1, some 1, some 1, some 1, some 1⟩, .dataD "KY" [⟨.deckValue, 100⟩], .endbox,
+             .box ⟨some 1, some 1, some 1, some 1, some 2, some 2⟩, .dataD "KY" [⟨.validDefault, 0⟩]],
+    edit := [], props := [], regions := [], solution := [] }
+
+/-- the lower cell (global 1) is active in both runs and differs -/
+theorem toplayer_breaks_independence :
+    (runProg .impl topD topT (initSt [true, true]) topP).map (fun t => sget t.dbls "KY") =
+      some (some [⟨.deckValue, 100⟩, ⟨.validDefault, 100⟩]) ∧
+    (runProg .impl topD topT (initSt [false, true]) topP).map (fun t => sget t.dbls "KY") =
+      some (some [⟨.validDefault, 0⟩]) := by
+  decide +kernel
+
+-- the hypotheses of `inactive_independence_partial` are satisfiable: the sample program, two ACTNUMs
+example : NoTop (⟨[("NTG", ⟨some 1, false, false, false, 1, 0, false⟩)], sampleT.int⟩ : Tables Int) := by
+  intro k i h
+  simp only [sget] at h
+  split at h
+  · cases h; rfl
+  · cases h
+example : sampleP.NoOperR := by
+  simp [Prog.NoOperR, sampleP, Kw.noOperR]
 
 end OpmVerif.Props.C12
